@@ -73,6 +73,7 @@ def classify_refusal(case, refusal_key, message):
 
 
 K_TYPER_BLIND = "type-inference-ignores-branch-conditions-and-guard"
+K_LINSOLVE = "cyclic-solver-linsolve-gives-up-on-algebraic-roots"
 
 
 def blind_unbounded_vars(prog, params, inits, rounds=12, cap=25):
@@ -171,6 +172,10 @@ def classify_refusal(case, refusal_key, message):
     occurring in conditions although its reachable value set is finite."""
     from .lang.ast import Program, walk_stmts, cond_vars
     from .checks.common import frac_dec
+    if refusal_key.startswith("HeuristicGCDFailed@utils/expressions.py:solve_linear"):
+        # sympy's linsolve gives up ("no luck") inside CyclicSolver._solve_for_unknowns when the characteristic
+        # roots are algebraic numbers of degree >= 3: exception type + raising function identify the mechanism
+        return K_LINSOLVE
     if not refusal_key.startswith("NormalizingException@"):
         return None
     prog = Program.from_json(case["ast"])
